@@ -65,13 +65,21 @@ Fixpoint no_adjacent_singles (ws : list str) : bool :=
 (* field names whose Go struct tag is the schema name again *)
 Definition go_tag_ok (s : str) : bool := is_lower_snake s && no_adjacent_singles (words s).
 
-(* a name prefix as documented ("my_prefix_"): ([a-z]+_)+ without two adjacent one-letter
-   words; the empty prefix is allowed *)
+(* a capital followed by small letters only (possibly none): [A-Z][a-z]* *)
+Definition cap_word (w : str) : bool :=
+  match w with u :: r => is_upper u && forallb is_lower r | [] => false end.
+
+(* a word of a name prefix: small letters, Capitalised, or CAPITALS *)
+Definition pword (w : str) : bool := lower_word w || cap_word w || upper_word w.
+
+(* a name prefix: words of those three kinds, each followed by "_" — the documented
+   "my_prefix_", but also "Lib_", "MY_", "My_Lib_" — without two adjacent one-letter words;
+   the empty prefix is allowed *)
 Fixpoint prefix_ok (ws : list str) : bool :=
   match ws with
   | [] => false
   | [w] => negb (nonempty w)
-  | w :: r => lower_word w && prefix_ok r
+  | w :: r => pword w && prefix_ok r
   end.
 Definition is_prefix (p : str) : bool :=
   match p with
@@ -79,6 +87,24 @@ Definition is_prefix (p : str) : bool :=
   | _ => prefix_ok (words p) && no_adjacent_singles (words p)
   end.
 Definition prefix_words (p : str) : list str := removelast (words p).
+
+(* the PascalCase form of a prefix word: first letter capital, and a word in CAPITALS keeps
+   only that first capital *)
+Definition capw (w : str) : str :=
+  match w with
+  | [] => []
+  | c :: r => if nonempty r && forallb is_upper (c :: r) then c :: lower r else to_upper c :: r
+  end.
+
+(* a prefix WITHOUT the final "_" ("Bp", "my_lib"): its last word must be small letters or
+   Capitalised with at least two letters, otherwise where the prefix ends is ambiguous
+   ("MY" + "Link").  Not covered by the theorems; compared with the implementation only. *)
+Definition is_prefix_open (p : str) : bool :=
+  nonempty p && forallb pword (words p) && no_adjacent_singles (words p) &&
+  match rev (words p) with
+  | w :: _ => lower_word w || (cap_word w && negb (single w))
+  | [] => false
+  end.
 
 (* capitalise a word (first letter to upper case) *)
 Definition cap (w : str) : str := match w with [] => [] | c :: r => to_upper c :: r end.
